@@ -101,6 +101,8 @@ func checkC07(c *Ctx) {
 	c.checkP2PMask()
 	c.checkSubscriberLimit()
 	c.checkSysAndSelfNames()
+	c.checkSelfGrantShapes()
+	c.checkMaskAfterParse()
 }
 
 func (c *Ctx) pairCall(v ssa.Value) bool {
